@@ -141,6 +141,18 @@ func (w *World) verifyFuncOnce(fi *FuncInfo, props []string, prefix []int, pathM
 	fx := &Fx{c: c, w: w, fi: fi, pkg: fi.Pkg, info: fi.Pkg.TypesInfo, spec: fi.Spec, pathMode: pathMode, prefix: prefix}
 	defer func() { taken, arity = fx.taken, fx.arity }()
 	defer func() {
+		// a loop contract whose ordinal names no loop of the function would silently check nothing: fail closed
+		if res.Err == "" && !pathMode && fi.Spec != nil {
+			for _, ord := range sortedLoopOrds(fi.Spec.Loops) {
+				if ord > fx.maxLoopOrd {
+					res.Err = fmt.Sprintf("contract error: `loop %d %s` binds to no loop of %s (it has %d)", ord, fi.Spec.Loops[ord].Hint, shortKey(fi.Key), fx.maxLoopOrd)
+					res.Obligs = nil
+					break
+				}
+			}
+		}
+	}()
+	defer func() {
 		res.Warnings = c.warnings
 		if r := recover(); r != nil {
 			switch e := r.(type) {
@@ -333,7 +345,7 @@ func (w *World) verifyFuncOnce(fi *FuncInfo, props []string, prefix []int, pathM
 				for _, k := range sortedKeys(c.heapSorts()) {
 					srt := c.heapSorts()[k]
 					he, hx := fx.entry.heap(k, srt), exit.heap(k, srt)
-					if he == hx || k == "NC" || k == "CLB" || k == "CNT" || k == "CNC" || k == "NRT" {
+					if he == hx || k == "NC" || k == "CLB" || k == "CNT" || k == "CNC" || k == "LV" || k == "NRT" {
 						continue
 					}
 					// writes to objects allocated by this activation are invisible to the caller: every undeclared heap
@@ -933,4 +945,13 @@ func (fx *Fx) emitAxioms(st *State) {
 			fx.c.lazyAxioms = append(fx.c.lazyAxioms, fx.specBool(env, ax.Expr))
 		}()
 	}
+}
+
+func sortedLoopOrds(m map[int]*LoopSpec) []int {
+	var ks []int
+	for k := range m {
+		ks = append(ks, k)
+	}
+	sort.Ints(ks)
+	return ks
 }
